@@ -13,11 +13,14 @@ pub mod c08;
 pub mod c09;
 pub mod c10;
 pub mod c11;
+pub mod c11b;
+pub mod c12;
 pub mod c13;
 pub mod c14;
 pub mod c15;
 pub mod c16;
 pub mod c17;
+pub mod c17b;
 pub mod c18;
 pub mod c19;
 pub mod c20;
@@ -43,6 +46,7 @@ pub mod c39;
 pub mod c40;
 pub mod metaconc;
 pub mod sched;
+
 
 
 
@@ -98,6 +102,7 @@ pub fn run(id: &str, run: &mut Run) {
         "C16" => c16::run(run),
         "C03" => c03::run(run),
         "C10" => c10::run(run),
+        "C12" => c12::run(run),
         _ => machinery_failure(&format!("no check for property {}", id)),
     }
 }
@@ -146,6 +151,7 @@ pub fn replay(id: &str, case: &Value, run: &mut Run) {
         "C16" => c16::replay(case, run),
         "C03" => c03::replay(case, run),
         "C10" => c10::replay(case, run),
+        "C12" => c12::replay(case, run),
         _ => machinery_failure(&format!("no replay for property {}", id)),
     }
 }
@@ -176,6 +182,9 @@ pub fn child(id: &str, args: &[String]) {
         "C16" => c16::child(args),
         "C03" => c03::child(args),
         "C10" => c10::child(args),
+        "C12" => c12::child(args),
+        "C11b" => c11b::child(args),
+        "C17" => c17b::child(args),
         _ => machinery_failure(&format!("no child mode for property {}", id)),
     }
 }
